@@ -204,9 +204,13 @@ def decide(prop_id, relations, tier, seed, wd):
     known_sigs = {C.sig_hash(k['signature']): k for k in known}
 
     broken = []          # names of theorems / relations that no longer check
-    built, build_log = C.coq_build(clean=(tier == 'thorough'))
+    built, build_log = C.coq_build(clean=False)
     if not built:
         broken.append('the Coq development does not build: ' + build_log[-1500:])
+    if tier == 'thorough':
+        ok_clean, clean_log = C.clean_build_copy(prop_id)
+        if not ok_clean:
+            broken.append('the Coq development does not build from clean: ' + clean_log[-1500:])
     obl = C.check_obligations(prop_id, thorough=(tier == 'thorough'))
     if not obl['ok']:
         broken.append('proof obligations of Props/%s.v (%d/%d discharged): %s'
